@@ -71,6 +71,7 @@ func runOne(t *testing.T, c *Case, src, sched *choice.Source, out *wproto.Out, i
 	if id%97 < 2 && st.Desc != "" {
 		out.Sample(map[string]any{"case": id, "kind": c.Kind, "what": st.Desc}, 12)
 	}
+	out.Remember(c)
 	out.Tick(256)
 }
 
